@@ -19,6 +19,15 @@ if [ "$R" != /repo ]; then
   sed "s|=> /repo\$|=> $R|" go.mod >"$T/go.mod" && cp go.sum "$T/go.sum"
   MODFLAG="-modfile=$T/go.mod"
 fi
+case "$ID" in
+  C17|C18)
+    # subject = the unmodified production build: no overlay, no tags
+    if ! go build $MODFLAG -o "$T/verifplain" ./cmd/verifplain >"$T/build.log" 2>&1; then
+      cat "$T/build.log"; echo "HARNESS-ERROR: build of the plain checker against $R failed"; exit 3
+    fi
+    VERIF_DIR="$V" "$T/verifplain" "$@"
+    exit $? ;;
+esac
 (go build -o "$T/overlaygen" ./cmd/overlaygen && "$T/overlaygen" -repo "$R" -verif "$V" -out "$T" >"$T/overlaygen.log" 2>&1) || { cat "$T/overlaygen.log" 2>/dev/null; echo "HARNESS-ERROR: overlay generation failed"; exit 3; }
 # first choice: with the component export hook (tag verife3); if the internal API it wraps changed, without it
 TAGS="verif verife3"
